@@ -39,14 +39,14 @@ func firstSig(r *Result) string {
 }
 
 // shrink minimises the choice list while the same violation signature persists.
-func shrink(t *testing.T, prop, tier string, vals []int, sig string, budget int) ([]int, int) {
+func shrink(t *testing.T, prop, tier string, vals []int, sig string, budget int, stepCap int64) ([]int, int) {
 	runs := 0
 	ok := func(v []int) bool {
 		if runs >= budget {
 			return false
 		}
 		runs++
-		r := RunOne(t, prop, 0, v, tier, false)
+		r := RunOneCapped(t, prop, 0, v, tier, false, stepCap)
 		return r.Infra == "" && firstSig(r) == sig
 	}
 	cur := append([]int(nil), vals...)
@@ -103,7 +103,7 @@ func writeReplay(t *testing.T, dir string, res *Result, tier string, doShrink bo
 	orig := len(vals)
 	runs := 0
 	if doShrink {
-		vals, runs = shrink(t, res.Prop, tier, vals, sig, envInt("SIM_SHRINK_BUDGET", 300))
+		vals, runs = shrink(t, res.Prop, tier, vals, sig, envInt("SIM_SHRINK_BUDGET", 300), res.Steps*2+20000)
 	}
 	// final run with the full trace; must reproduce
 	fin := RunOne(t, res.Prop, 0, vals, tier, true)
@@ -195,7 +195,7 @@ func TestSim(t *testing.T) {
 		}
 		rec := outRec{Result: res}
 		if sig := firstSig(res); sig != "" && rdir != "" && res.Infra == "" {
-			rec.Replay = writeReplay(t, rdir, res, tier, !shrunk[sig])
+			rec.Replay = writeReplay(t, rdir, res, tier, !shrunk[sig] && len(shrunk) < 3)
 			shrunk[sig] = true
 		}
 		js, _ := json.Marshal(rec)
